@@ -128,6 +128,7 @@ enum Class {
     Short,
     Empty,
     Wildcard,
+    Long,
 }
 
 impl Class {
@@ -141,6 +142,7 @@ impl Class {
             Class::Short => "short",
             Class::Empty => "empty",
             Class::Wildcard => "wildcard",
+            Class::Long => "long",
         }
     }
 }
@@ -250,6 +252,13 @@ fn inputs(e: &Entry, tier: Tier) -> Vec<(String, Class)> {
     for s in mc_api::strings_upto(&SYMBOLS, tier.pick(4, 6)) {
         push(s, Class::Short, &mut out);
     }
+    // lengths around the only length limit a string enum has (room versions: 32 code points), in bytes and
+    // in code points, and long values
+    for n in [31usize, 32, 33, 255, 256] {
+        push("a".repeat(n), Class::Long, &mut out);
+        push("é".repeat(n), Class::Long, &mut out);
+        push(format!("{}.x", "v".repeat(n.saturating_sub(2))), Class::Long, &mut out);
+    }
     if tier.is_thorough() {
         for s in &seeds {
             for m in single_edits(s) {
@@ -291,6 +300,12 @@ fn eval_input<T: StrEnum>(e: &Entry, s: &str, class: Class, t: &mut Tally) -> Ve
             t.outcome("convert", "refused");
             if class == Class::Spec {
                 out.push((format!("variant/{ty}/{s}"), format!("{ty}: spec spelling {s:?} is refused")));
+            } else if !(ty == "RoomVersionId"
+                && (s.is_empty() || s.chars().count() > 32 || !s.chars().all(|ch| ch.is_ascii_alphanumeric() || ch == '.' || ch == '-')))
+            {
+                // the grammar of a room version ID (spec, "Room versions"): 1 to 32 code points out of
+                // letters, digits, `.` and `-`; nothing inside it may be refused
+                out.push((format!("refused/{ty}/{c}"), format!("{ty}: {s:?} ({} code points) is refused", s.chars().count())));
             }
             return out;
         }
@@ -475,7 +490,7 @@ fn main() {
         double = tier.pick("", "; every double edit of every spelling"),
     ));
     report.assume("spelling table: hand-written from the spec for the event-type enums; for the StringEnum derives generated once from the variant names with an independent implementation of the rename rules, reviewed against the spec, frozen in src/c19_table.rs");
-    report.assume("RoomVersionId is the one validated string enum: a refusal is accepted except for spec spellings");
+    report.assume("RoomVersionId is the one validated string enum: a refusal is accepted only outside the grammar of room version IDs (empty, more than 32 code points, a character other than letters / digits / `.` / `-`)");
     report.require_outcomes("variant", 2);
     report.require_outcomes("cmp", 3);
     par_shards(&report, reg.len(), |i, t| {
